@@ -1188,6 +1188,7 @@ type hintCase struct {
 	Name       string
 	AsEncoding bool
 	PayloadHex string
+	Mirrored   bool `json:",omitempty"` // the symbol is transposed: it decodes on the decoder's mirrored retry only
 }
 
 func buildUndesignated(p []byte) ([][]bool, error) {
@@ -1215,7 +1216,11 @@ func runDecodeHints() {
 			cases = append(cases, hintCase{Sub: "decode-hint", Name: d.names[0], PayloadHex: hex.EncodeToString(p)})
 		}
 	}
-	chk.Range(fmt.Sprintf("(5) decode-side CHARACTER_SET hint (every registered spelling as string, every set as encoding.Encoding value) on ref/qr-built version 2-L symbols with one undesignated byte segment from a menu of %d payloads (Latin-1, Shift_JIS, UTF-8, BOM-prefixed, mixed) [%d symbols]", len(payloads)+1, len(cases)), len(cases),
+	for _, c := range append([]hintCase{}, cases...) {
+		c.Mirrored = true
+		cases = append(cases, c)
+	}
+	chk.Range(fmt.Sprintf("(5) decode-side CHARACTER_SET hint (every registered spelling as string, every set as encoding.Encoding value) on ref/qr-built version 2-L symbols with one undesignated byte segment from a menu of %d payloads (Latin-1, Shift_JIS, UTF-8, BOM-prefixed, mixed), each symbol upright and mirrored (transposed: read on the decoder's second attempt) [%d symbols]", len(payloads)+1, len(cases)), len(cases),
 		func(i int) string { return fmt.Sprint(cases[i]) },
 		func(l *mc.Local, i int) { decodeHintOne(l, cases[i]) })
 	chk.Sample("decode-hint", cases[1])
@@ -1228,6 +1233,16 @@ func decodeHintOne(l *mc.Local, c hintCase) {
 	if err != nil {
 		chk.Violation("C15/harness/build", err.Error(), c)
 		return
+	}
+	if c.Mirrored {
+		t := make([][]bool, len(m))
+		for y := range t {
+			t[y] = make([]bool, len(m))
+			for x := range t[y] {
+				t[y][x] = m[x][y]
+			}
+		}
+		m = t
 	}
 	var hv interface{} = c.Name
 	if c.AsEncoding {
@@ -1243,7 +1258,7 @@ func decodeHintOne(l *mc.Local, c hintCase) {
 	want := decodeWith(d.enc, p)
 	l.Distinct("outcomes", "dh/"+d.key())
 	if r.err != nil || r.text != want {
-		chk.Violation("C15/decode-hint/"+keyPart(d.key()), fmt.Sprintf("undesignated bytes %X decoded with CHARACTER_SET hint %q (as encoding value: %v): %+q err %v, %s gives %+q", p, c.Name, c.AsEncoding, r.text, r.err, d.key(), want), c)
+		chk.Violation("C15/decode-hint/"+keyPart(d.key()), fmt.Sprintf("undesignated bytes %X (symbol mirrored: %v) decoded with CHARACTER_SET hint %q (as encoding value: %v): %+q err %v, %s gives %+q", p, c.Mirrored, c.Name, c.AsEncoding, r.text, r.err, d.key(), want), c)
 	}
 }
 
